@@ -41,6 +41,8 @@ struct ClmRoundtrip : Family {
 		Plan p;
 		size_t nf;
 		switch (r.below(6)) { case 0: nf = 0; break; case 1: nf = 1; break; default: nf = r.range(2, 8); break; }
+		bool many = r.chance(1, thorough ? 10 : 25); // beyond the thresholds (16, 32) at which sort / small-buffer strategies change
+		if (many) nf = r.range(17, 40);
 		Line fmt = mkline("world", "fmt");
 		if (r.chance(1, 3)) fmt.set("tag", 1).set("ch", 1).set("rate", 22050).set("avg", 44100).set("align", 2).set("bits", 16);
 		else fmt.set("tag", r.below(65536)).set("ch", r.below(65536)).set("rate", r.next() & 0xffffffffu).set("avg", r.next() & 0xffffffffu).set("align", r.below(65536)).set("bits", r.below(65536));
@@ -62,7 +64,7 @@ struct ClmRoundtrip : Family {
 			names.push_back(nm);
 			Line w = mkline("world", "wav");
 			uint64_t len;
-			switch (r.below(8)) { case 0: len = 0; break; case 1: len = 1 + r.below(4); break; case 2: len = (!big || thorough) && r.chance(1, 3) ? 131071 + r.below(3) : r.below(5000); break; default: len = r.below(5000); break; }
+			switch (r.below(8)) { case 0: len = 0; break; case 1: len = 1 + r.below(4); break; case 2: len = (!big || thorough) && !many && r.chance(1, 3) ? 131071 + r.below(3) : r.below(5000); break; default: len = r.below(many ? 200 : 5000); break; }
 			if (len > 100000) big = true;
 			static const char* EXT[] = {".wav", ".WAV", ".Wav", ".wAV"};
 			w.set("name", nm).set("ext", EXT[r.below(4)]).set("dir", r.chance(1, 4) ? std::string("-") : "_w" + std::to_string(r.below(3))).set("cseed", hex64(r.next())).set("len", len)
